@@ -50,7 +50,7 @@ Definition ex_sub : gproto :=
      (NCons (Np 0 11 0 [3; 2; 4; 1] [5] ANil) NNil).
 Definition ex_proto : mproto :=
   mkMP 1 (Gp 0 0 [mkVI 1 7 false; mkVI 1 0 false] [mkVI 2 0 false; mkVI 9 0 false; mkVI 1 0 false]
-             [mkTP 1 21 8 false false] [mkVI 3 6 false]
+             [mkTP 1 21 8 false false []] [mkVI 3 6 false]
              (NCons (Np 0 10 0 [2] [3; 0] ANil)
              (NCons (Np 0 10 0 [3; 4; 0] [2] (ACons (AGraph 12 ex_sub) ANil)) NNil))) [].
 Example C17_consistent_nonvacuous :
